@@ -407,6 +407,58 @@ pub fn run(run: &mut Run) {
         }
     }
 
+    // ---- error precedence: in every n-ary construct, two operands fail with different error
+    //      classes in every pair of positions; the leftmost failure must win
+    run.sub("error-precedence");
+    {
+        let li = |i: i64| E::Lit(MV::Int(i));
+        let errs: Vec<(&str, E)> = vec![
+            ("divzero", E::Bin("/", b(li(1)), b(li(0)))),
+            ("overflow", E::Bin("+", b(li(i64::MAX)), b(li(1)))),
+            ("nokey", E::Select(b(E::Map(vec![(E::Lit(MV::s("a")), li(1))])), "zz".into())),
+            ("undeclared", E::Var("nope".into())),
+            ("conv", call("uint", vec![li(-1)])),
+            ("type", E::Bin("+", b(li(1)), b(E::Lit(MV::s("s"))))),
+        ];
+        let ok = |k: i64| li(10 + k);
+        // constructs as (name, arity, builder)
+        type B = Box<dyn Fn(Vec<E>) -> E>;
+        let cons: Vec<(&str, usize, B)> = vec![
+            ("list3", 3, Box::new(|k| E::List(k))),
+            ("map2-k1v1k2v2", 4, Box::new(|k| E::Map(vec![(k[0].clone(), k[1].clone()), (k[2].clone(), k[3].clone())]))),
+            ("max3", 3, Box::new(|k| call("max", k))),
+            ("plus", 2, Box::new(|k| E::Bin("+", b(k[0].clone()), b(k[1].clone())))),
+            ("less", 2, Box::new(|k| E::Bin("<", b(k[0].clone()), b(k[1].clone())))),
+            ("eq", 2, Box::new(|k| E::Bin("==", b(k[0].clone()), b(k[1].clone())))),
+            ("in", 2, Box::new(|k| E::Bin("in", b(k[0].clone()), b(E::List(vec![k[1].clone()]))))),
+            ("index", 2, Box::new(|k| E::Index(b(E::List(vec![k[0].clone()])), b(k[1].clone())))),
+            ("cond-c-t", 2, Box::new(|k| E::Cond(b(E::Bin(">", b(k[0].clone()), b(E::Lit(MV::Int(0))))), b(k[1].clone()), b(E::Lit(MV::Int(0)))))),
+            ("recv-arg", 2, Box::new(|k| mcall(E::List(vec![k[0].clone()]), "contains", vec![k[1].clone()]))),
+            ("args2", 2, Box::new(|k| call("startsWith", vec![call("string", vec![k[0].clone()]), call("string", vec![k[1].clone()])]))),
+            ("nested-list", 2, Box::new(|k| E::List(vec![E::List(vec![k[0].clone()]), k[1].clone()]))),
+            ("macro-range-body", 2, Box::new(|k| E::Macro("map", b(E::List(vec![k[0].clone()])), "x".into(), vec![k[1].clone()]))),
+        ];
+        for (cname, arity, build) in cons.iter() {
+            for i in 0..*arity {
+                for j in (i + 1)..*arity {
+                    for (n1, e1) in errs.iter() {
+                        for (n2, e2) in errs.iter() {
+                            if n1 == n2 {
+                                continue;
+                            }
+                            if !run.take() {
+                                continue;
+                            }
+                            let kids: Vec<E> = (0..*arity).map(|p| if p == i { e1.clone() } else if p == j { e2.clone() } else { ok(p as i64) }).collect();
+                            let e = build(kids);
+                            check_program(run, &format!("errprec-{}", cname), &e, &ctx, &mut env);
+                        }
+                    }
+                }
+            }
+        }
+    }
+
     // ---- spines: every type-consistent chain of unary contexts up to depth 6 (quick 4)
     let depth = run.pick(4usize, 6usize);
     let ws = wrappers();
